@@ -92,7 +92,19 @@ def manifest(seed, rng):
     out.append(b[:len(b) // 2] + b"\xc3" + b[len(b) // 2:])
     out.append(_build(first, [hdr] + data * 30) + b"\xff\n")      # beyond the first decoder chunk
     out.append(_build(first, [hdr] + [data[0][:-1] + ['a"b']] + data[1:]))
-    return [(m, None) for m in out]
+    res = [(m, None) for m in out]
+    # load_from_filename picks gzip.open by the NAME: the same bytes under both names, gzip streams whole and broken
+    import gzip as _gz
+    good = _build(first, [hdr] + data)
+    z = _gz.compress(good)
+    short = _gz.compress(_build(first, [hdr] + [data[0][:7]]))
+    badver = _gz.compress(_build(MF_PREFIX + "2.0", [hdr] + data))
+    for name in ("suffix=.csv.gz", "suffix=.csv"):
+        for payload in (good, z, z[:len(z) // 2], z[:10], z[:3], b"\x1f\x8b", z + b"trailing garbage", z + z, z[:-4] + b"\x00\x00\x00\x00",
+                        z[:20] + bytes([z[20] ^ 0xff]) + z[21:], b"", short, badver, _gz.compress(b""), _gz.compress(good[:40]),
+                        _gz.compress(good + b"\xff")):
+            res.append((payload, name))
+    return res
 
 
 PL_ARGS = ["{}:md5:md5", "{}:md5:md5:include", "{}:md5:md5:exclude", "{}:md5:md5:bogus", "{}:md5:md5:", "{}:md5", "{}", "{}:md5:md5:include:x",
@@ -141,6 +153,15 @@ def picklist(seed, mf_seed, rng):
     out.append((big[:6000] + b"\xff" + big[6000:], "{}:md5:md5"))
     out.append((b"\xff" + seed, "{}:md5:md5"))
     out.append((seed + b"\xe2\x82", "{}:md5:md5"))
+    # FileInputCSV sniffs gzip by content: whole and broken gzip streams of the same pickfile
+    import gzip as _gz
+    z = _gz.compress(seed)
+    zh = _gz.compress(("# comment\r\n" + text).encode())
+    for payload in (z, zh, z[:len(z) // 2], z[:10], z[:3], b"\x1f\x8b", b"\x1f\x8b\x08", z + z, z[:-4] + b"\x00\x00\x00\x00",
+                    z[:20] + bytes([z[20] ^ 0xff]) + z[21:], _gz.compress(b""), _gz.compress(seed + b"\xff"), _gz.compress(b"\xff" + seed),
+                    _gz.compress(b"#x\r\n" + seed), _gz.compress(big[:4095] + "é".encode() + big[4095:]), z + b"trailing garbage"):
+        for a in ("{}:md5:md5", "{}:name:ident"):
+            out.append((payload, a))
     return out
 
 
@@ -343,3 +364,54 @@ def lca(seed, rng):
            b"{\"a\":" * 2000, b"{\"a\":" + b"[" * 3000 + b"]" * 3000 + b"}", b"{\"type\": \"sourmash_lca\", \"version\": 2." + b"0" * 5000 + b"}",
            b"{\"type\": \"sourmash_lca\", \"version\": " + b"9" * 5000 + b"}"]
     return [(m, None) for m in out] + [(r, None) for r in raw]
+
+
+def sbtzip(seed, rng):
+    """zip-stored SBT: the index-file location step (how many *.sbt.json members) and the description read from the zip"""
+    import io
+    import zipfile
+    zf = zipfile.ZipFile(io.BytesIO(seed))
+    names = zf.namelist()
+    idx = [n for n in names if n.endswith(".sbt.json")]
+    if len(idx) != 1:
+        return []
+    base = json.loads(zf.read(idx[0]))
+
+    def build(members):
+        buf = io.BytesIO()
+        with zipfile.ZipFile(buf, "w") as zo:
+            for n, data in members:
+                zo.writestr(n, data)
+        return buf.getvalue()
+    others = [(n, zf.read(n)) for n in names if n != idx[0]]
+    out = [build(others),                                                        # no description at all
+           build(others + [(idx[0], zf.read(idx[0])), ("second.sbt.json", zf.read(idx[0]))]),   # two descriptions
+           build([(idx[0], zf.read(idx[0]))]),                                   # description only
+           build(others + [("renamed.json", zf.read(idx[0]))]),
+           build(others + [(idx[0], b"")]), build(others + [(idx[0], b"[]")]), build(others + [(idx[0], b"{")]),
+           build(others + [(idx[0], b"\xff{}")])]
+    docs = []
+    for v in (1, 2, 3, 4, 5, 7, "6", None, [6], 6.0, True):
+        d = copy.deepcopy(base)
+        d["version"] = v
+        docs.append(d)
+    for key in list(base):
+        d = copy.deepcopy(base)
+        del d[key]
+        docs.append(d)
+    for st in ({"backend": "RedisStorage", "args": {}}, {"backend": "Nope", "args": {}}, None, [], {"backend": "FSStorage", "args": {"path": "elsewhere"}}):
+        d = copy.deepcopy(base)
+        d["storage"] = st
+        docs.append(d)
+    for mp in (None, 5, 7, 255, 256, 300, -1, True, 2.5, [], "", "nonexistent.csv", names[0], "SOURMASH-MANIFEST.csv"):
+        d = copy.deepcopy(base)
+        d["manifest_path"] = mp
+        docs.append(d)
+    for tab in ("nodes", "signatures"):
+        for val in (None, [], {}, {"x": {}}, {" 1 ": {"filename": "f", "name": "n", "metadata": "m"}}):
+            d = copy.deepcopy(base)
+            d[tab] = val
+            docs.append(d)
+    for d in docs:
+        out.append(build(others + [(idx[0], json.dumps(d).encode())]))
+    return [(m, None) for m in out]
